@@ -435,6 +435,9 @@ func (x *Exec) loopHead(fr *Frame, st *State, b *ssa.BasicBlock, pred *ssa.Basic
 		st.env[ph] = vals[i]
 		x.bindPhiName(st, ph, vals[i])
 	}
+	if k, ok := st.dbg["__k"]; ok && hasRangeIndex(phis) {
+		st.dbg[fmt.Sprintf("__k%d", ord)] = k // $k<ord>: progress of loop <ord>, visible inside nested loops
+	}
 	which := "established"
 	if isBack {
 		which = "preserved"
@@ -457,6 +460,9 @@ func (x *Exec) loopHead(fr *Frame, st *State, b *ssa.BasicBlock, pred *ssa.Basic
 		fv := x.freshVal(st, ph.Type(), phiName(ph))
 		st.env[ph] = fv
 		x.bindPhiName(st, ph, fv)
+	}
+	if k, ok := st.dbg["__k"]; ok && hasRangeIndex(phis) {
+		st.dbg[fmt.Sprintf("__k%d", ord)] = k
 	}
 	eff := newEffects()
 	var blocks []*ssa.BasicBlock
@@ -502,6 +508,15 @@ func (x *Exec) loopHead(fr *Frame, st *State, b *ssa.BasicBlock, pred *ssa.Basic
 	}
 	x.withSpecErr("use", func() { x.applyUses(fr, st, x.specEnvHere(fr, st, nil), fmt.Sprintf("loop%d", ord)) })
 	return true
+}
+
+func hasRangeIndex(phis []*ssa.Phi) bool {
+	for _, ph := range phis {
+		if ph.Comment == "rangeindex" {
+			return true
+		}
+	}
+	return false
 }
 
 func phiName(ph *ssa.Phi) string {
